@@ -195,6 +195,7 @@ def run_contracts(reg, contracts, lemmas, want_models=True):
     """returns (results per obligation, functions info, crashes, solver time)"""
     jobs, meta = [], []
     retry = []
+    twin = {}       # index of the all-hypotheses job -> index of its relevant-hypotheses twin
     functions, notes = [], []
     undecided_fn = {}
     for c in contracts:
@@ -236,14 +237,18 @@ def run_contracts(reg, contracts, lemmas, want_models=True):
                 kept = [h for h in pruned if h.get_id() not in omit]
                 if len(kept) != len(pruned):
                     pruned, dropped = kept, True
+            full = base_hyps + solve.spec_closure(eng, reg.specs, base_hyps + [vc.goal])
+            full_smt = solve.to_smt2(full, vc.goal)
             if dropped:
-                # first attempt from the relevant hypotheses only; the full set is tried if that does not succeed
+                # two cheap attempts side by side: relevant hypotheses only / all hypotheses; whichever proves the
+                # goal discharges it (both are sound); what stays open gets the long budget and cvc5 afterwards
                 hp = pruned + solve.spec_closure(eng, reg.specs, pruned + [vc.goal])
                 jobs.append((solve.to_smt2(hp, vc.goal), min(Z3_MS, PRUNED_MS), None, 0))
-                retry.append((len(jobs) - 1, c, vc, base_hyps, eng, readback))
+                twin[len(jobs)] = len(jobs) - 1
+                jobs.append((full_smt, min(Z3_MS, PRUNED_MS), readback if want_models else None, 0))
+                retry.append((len(jobs) - 1, c, vc, full_smt, eng, readback))
             else:
-                hyps = base_hyps + solve.spec_closure(eng, reg.specs, base_hyps + [vc.goal])
-                jobs.append((solve.to_smt2(hyps, vc.goal), Z3_MS, readback if want_models else None, CVC5_MS))
+                jobs.append((full_smt, Z3_MS, readback if want_models else None, CVC5_MS))
             meta.append((c, vc, len(jobs) - 1))
     for lm in lemmas:
         try:
@@ -259,20 +264,22 @@ def run_contracts(reg, contracts, lemmas, want_models=True):
             meta.append((lm, vc, len(jobs) - 1))
     t0 = time.time()
     res = solve.discharge(jobs)
-    # second attempt with all hypotheses for the pruned jobs that were not proved
+    # merge the twins, then a second attempt (long budget, cvc5) for what is still open
     jobs2, idx2 = [], []
-    for j, c, vc, base_hyps, eng, readback in retry:
-        if res[j]["result"] != "unsat":
-            hyps = base_hyps + solve.spec_closure(eng, reg.specs, base_hyps + [vc.goal])
-            jobs2.append((solve.to_smt2(hyps, vc.goal), Z3_MS, readback if want_models else None, CVC5_MS))
+    for j, c, vc, full_smt, eng, readback in retry:
+        if res[j]["result"] != "unsat" and res[twin[j]]["result"] == "unsat":
+            res[j] = dict(res[twin[j]], z3_s=res[j].get("z3_s", 0) + res[twin[j]].get("z3_s", 0))
+        elif res[j]["result"] == "unknown":
+            jobs2.append((full_smt, Z3_MS, readback if want_models else None, CVC5_MS))
             idx2.append(j)
     for j, r in zip(idx2, solve.discharge(jobs2)):
         r["z3_s"] = r.get("z3_s", 0) + res[j].get("z3_s", 0)
         res[j] = r
     # quiet retry: obligations still open (time-outs under load) get three times the budget, four at a time
     full_jobs = dict(zip(idx2, jobs2))
+    skip = set(twin.values())
     cover_idx = {j for (_o, vc, j) in meta if j is not None and vc.kind == "cover"}
-    again = [j for j in range(len(res)) if res[j]["result"] == "unknown" and j not in cover_idx]
+    again = [j for j in range(len(res)) if res[j]["result"] == "unknown" and j not in cover_idx and j not in skip]
     if again and len(again) <= 24:
         jobs3 = []
         for j in again:
